@@ -14,6 +14,7 @@ import Driver.C02
 import Driver.C10
 import Driver.C09
 import Driver.C04
+import Driver.C11
 open Driver
 
 def dispatch (id : String) (toks : List String) (impl : String) : Verdict :=
@@ -33,6 +34,7 @@ def dispatch (id : String) (toks : List String) (impl : String) : Verdict :=
   | "C10" => Driver.C10.handle toks impl
   | "C09" => Driver.C09.handle toks impl
   | "C04" => Driver.C04.handle toks impl
+  | "C11" => Driver.C11.handle toks impl
   | _ => badOp "unknown property"
 
 /-- Split `line` at the first occurrence of " => ". -/
